@@ -843,8 +843,10 @@ def _run_tcp_recv(case, res, log):
 
 def expect_tcp_send(case, total):
     """Simulate the acceptance pattern: returns ('ok',) or ('exc','Timeout'), bytes delivered."""
-    T = case["timeout"]
-    t = 0.0
+    # same absolute-time float arithmetic as the simulated clock (start 9000.0), so that a
+    # gap sequence ending exactly on the deadline is classified identically
+    t = 9000.0
+    T = t + case["timeout"]
     sent = 0
     i = 0
     acc = case["tx_accept"]
@@ -853,7 +855,7 @@ def expect_tcp_send(case, total):
             k = acc[i]
             i += 1
             if k == 0:
-                t += case["tx_gap"]
+                t = t + case["tx_gap"]
                 if t >= T:
                     return ("exc", "Timeout"), sent
                 continue
